@@ -628,3 +628,8 @@ add('C05', 'year-fourth-char-test-negated', YEARF, "                if working_s
 add('C05', 'year-position-left-relative', YEARF, "            start_index += start\n", "", 'fire', 'C05.R22')
 add('C05', 'year-prefix-18', YEARF, "year_prefix = ['19','20']", "year_prefix = ['18','20']", 'fire', 'C05.R22')
 add('C05', 'year-position-explicit-sum', YEARF, "            start_index += start\n", "            start_index = start_index + start\n", 'silent')
+
+# ---- mutation sweep (third run, full): seed advance deleted; queue position saved under the inverted mode test -------------------
+add('C16', 'honeyword-seed-advance-deleted', HSF_, "            self.random_seed += 1\n", "", 'fire', 'C16.R3')
+add('C16', 'honeyword-seed-advance-by-two', HSF_, "            self.random_seed += 1\n", "            self.random_seed += 2\n", 'silent')
+add('C08', 'queue-position-saved-in-the-other-modes', CSF, '        if self.mode == "priority_queue":', '        if self.mode != "priority_queue":', 'fire', 'C08.R4')
